@@ -429,6 +429,18 @@ func (s *Sched) ShutdownActive() bool {
 	return len(s.sdThread) > 0
 }
 
+// SnapshotTaken: some ShutDownProject call has computed its shutdown order (shutdown_order logged).
+func (s *Sched) SnapshotTaken() bool {
+	s.mu.Lock()
+	defer s.mu.Unlock()
+	for i := len(s.Events) - 1; i >= 0; i-- {
+		if s.Events[i].Label == "shutdown_order" {
+			return true
+		}
+	}
+	return false
+}
+
 // ParkAlso adds a label to the parking set.
 func (s *Sched) ParkAlso(label string) {
 	s.mu.Lock()
